@@ -9,7 +9,7 @@
 extern "C" {
 #endif
 
-#define VOP_MAXA 12
+#define VOP_MAXA 48
 #define VOP_MAXD 4
 typedef struct vop {
 	char           name[24];
